@@ -94,7 +94,11 @@ impl LyNative for ChannelClose {
   fn call(&self, hooks: &mut Hooks, args: &[Value]) -> Call {
     let mut channel = args[0].to_obj().to_channel();
     match channel.close() {
-      CloseResult::Ok => Call::Ok(VALUE_NIL),
+      CloseResult::Ok => {
+        // fibers parked on the channel are woken through the fiber that closed it
+        hooks.use_channel(channel);
+        Call::Ok(VALUE_NIL)
+      },
       CloseResult::AlreadyClosed => self.call_error(hooks, "Channel already closed."),
     }
   }
